@@ -65,6 +65,14 @@ fn main() {
                     world::install_seq_hooks();
                     props::c18::run(tier)
                 }
+                "C11" => {
+                    world::install_seq_hooks();
+                    props::c11::run(tier)
+                }
+                "C16" => {
+                    world::install_seq_hooks();
+                    props::c16::run(tier)
+                }
                 "C06" => props::c06::run(tier),
                 other => {
                     eprintln!("unknown property {other}");
@@ -118,6 +126,14 @@ fn main() {
                 "C18" => {
                     world::install_seq_hooks();
                     props::c18::replay(&v)
+                }
+                "C11" => {
+                    world::install_seq_hooks();
+                    props::c11::replay(&v)
+                }
+                "C16" => {
+                    world::install_seq_hooks();
+                    props::c16::replay(&v)
                 }
                 "C06" => props::c06::replay(&v),
                 other => {
